@@ -47,6 +47,17 @@ pub fn oracle(case: &ProgCase, index: u64, ctx: &mut Ctx) {
                 Err(pi) => format!("<accessor panicked: {}>", pi.message),
             };
             ctx.outcome(fnv_str(&got));
+            if let Ok(alts) = catch(|| ast_extract::alternative_accessor_findings(&p.syntax_node())) {
+                for (acc, got_v, want_v) in alts {
+                    ctx.fail(Failure {
+                        rule: "accessor_role".into(),
+                        witness: text.clone(),
+                        locus: acc.clone(),
+                        detail: format!("{} returns `{}`, the constituent in that role is `{}`", acc, got_v, want_v),
+                        case: json!({"index": index, "text": text}),
+                    });
+                }
+            }
             if got != expected {
                 let d = first_diff(&got, &expected);
                 let lo = d.saturating_sub(30);
